@@ -450,6 +450,9 @@ class Histogram:
             raise ValueError("Bin edges must be monotonically increasing.")
         if index < len(self.bin_edges_) and bin_edge >= self.bin_edges_[index]:
             raise ValueError("Bin edges must be monotonically increasing.")
+        if self.bin_edges_.dtype != np.float64:
+            # edges given as integers (or float32) would cast the new edge
+            self.bin_edges_ = self.bin_edges_.astype(np.float64)
 
         self.number_of_bins_ += 1
         self.bin_edges_ = np.insert(self.bin_edges_, index, bin_edge)
